@@ -226,6 +226,9 @@ func c18Command(c *core.Ctx, k *core.Case) {
 	if d := cmpSubLists(model, back); d != "" {
 		c.Fail(k, "list-roundtrip", fmt.Sprintf("%s (bytes %s)", d, hx(content)))
 	}
+	if ch, _ := appendProbe(reflect.ValueOf(&back)); ch {
+		c.Fail(k, "decoded-slices-share-capacity:list", fmt.Sprintf("appending to the contents of one decoded policy part changed another part of the list (bytes %s)", hx(content)))
+	}
 	// every level's own MarshalBinary (list, sublist, contents, instruction, section, part):
 	// results are the caller's and survive later calls
 	c.Count("marshal_nodes", int64(marshalEverywhere(c, k, "uePolicyContainer", reflect.ValueOf(&lc).Elem(), 0)))
@@ -261,6 +264,15 @@ func c18Command(c *core.Ctx, k *core.Case) {
 	msg.ManageUEPolicyCommand = uePolicyContainer.NewManageUEPolicyCommand(uePolicyContainer.MsgTypeManageUEPolicyCommand)
 	msg.ManageUEPolicyCommand.PTI.SetPTI(pti)
 	msg.ManageUEPolicyCommand.UEPolicySectionManagementList.SetIei(0x6c)
+	if k.I[0]&2 == 2 && len(content) < 60000 {
+		// the list element held something longer before (a value that is filled a second time)
+		longer := append(cloneB(content), r.Bytes(r.Range(1, 12))...)
+		if k.I[0]&4 == 4 {
+			longer = append(longer, 0x42, 0x02, 0x01, 0x00)[:len(content)+4] // a tail that would read as a classmark
+		}
+		msg.ManageUEPolicyCommand.UEPolicySectionManagementList.SetLen(uint16(len(longer)))
+		msg.ManageUEPolicyCommand.UEPolicySectionManagementList.SetUEPolicySectionManagementListContent(longer)
+	}
 	msg.ManageUEPolicyCommand.UEPolicySectionManagementList.SetLen(uint16(len(content)))
 	msg.ManageUEPolicyCommand.UEPolicySectionManagementList.SetUEPolicySectionManagementListContent(content)
 	if k.I[2] == 1 {
@@ -425,6 +437,11 @@ func c18Reject(c *core.Ctx, k *core.Case) {
 	msg.ManageUEPolicyReject = uePolicyContainer.NewManageUEPolicyReject(uePolicyContainer.MsgTypeManageUEPolicyReject)
 	msg.ManageUEPolicyReject.PTI.SetPTI(pti)
 	msg.ManageUEPolicyReject.UEPolicySectionManagementResult.SetIei(0x6d)
+	if k.I[0]&2 == 2 {
+		longer := append(cloneB(content), r.Bytes(r.Range(1, 12))...)
+		msg.ManageUEPolicyReject.UEPolicySectionManagementResult.SetLen(uint16(len(longer)))
+		msg.ManageUEPolicyReject.UEPolicySectionManagementResult.SetUEPolicySectionManagementResultContent(longer)
+	}
 	msg.ManageUEPolicyReject.UEPolicySectionManagementResult.SetLen(uint16(len(content)))
 	msg.ManageUEPolicyReject.UEPolicySectionManagementResult.SetUEPolicySectionManagementResultContent(content)
 	wire, err := msg.UePolDeliverySerEncode()
@@ -506,6 +523,29 @@ var c18Targets = []string{"uePolicyContainer.UePolDeliverySer.UePolDeliverySerDe
 func c18Total(c *core.Ctx, k *core.Case) {
 	c.Eval(1)
 	c18Parse(k.I[0], cloneB(k.B[0]))
+	if !capacityIndependent(k.B[0], func(b []byte) uint64 {
+		var v interface{}
+		var err error
+		switch k.I[0] {
+		case 0:
+			m := uePolicyContainer.NewUePolDeliverySer()
+			err, v = m.UePolDeliverySerDecode(b), m
+		case 1:
+			l := &uePolicyContainer.UEPolicySectionManagementListContent{}
+			err, v = l.UnmarshalBinary(b), l
+		default:
+			l := &uePolicyContainer.UEPolicySectionManagementResultContent{}
+			err, v = l.UnmarshalBinary(b), l
+		}
+		if err == nil {
+			if ch, _ := appendProbe(reflect.ValueOf(v)); ch {
+				c.Fail(k, "decoded-slices-share-capacity:"+c18Targets[k.I[0]], fmt.Sprintf("appending to one byte slice of the value decoded from %s changed another part of it", hx(k.B[0])))
+			}
+		}
+		return digestOf(err, v)
+	}) {
+		c.Fail(k, "parse-depends-on-capacity", fmt.Sprintf("the %d octets %s decode differently from a slice of exactly that capacity and from the prefix of a larger array", len(k.B[0]), hx(k.B[0])))
+	}
 }
 
 // oracle "total-sweep": I=[kind, len, lo, hi]
